@@ -30,6 +30,28 @@ pub(crate) fn decompress(data: &[u8], expected_size: usize) -> Result<Vec<u8>> {
     Ok(decompressed)
 }
 
+/// Decompress bzip2 data whose exact output size is not known to the caller
+///
+/// Used for the bzip2 stage of multi-method blocks (e.g. ADPCM + bzip2), where only the size of
+/// the final output is known: `max_size` is an upper bound, not the expected size.
+pub(crate) fn decompress_bounded(data: &[u8], max_size: usize) -> Result<Vec<u8>> {
+    let mut decoder = BzDecoder::new(data).take(max_size as u64 + 1);
+    let mut decompressed = Vec::new();
+
+    decoder
+        .read_to_end(&mut decompressed)
+        .map_err(|e| decompression_error("BZip2", e))?;
+
+    if decompressed.len() > max_size {
+        return Err(decompression_error(
+            "BZip2",
+            format!("Decompressed size exceeds the bound of {max_size} bytes"),
+        ));
+    }
+
+    Ok(decompressed)
+}
+
 /// Compress using BZip2
 pub(crate) fn compress(data: &[u8]) -> Result<Vec<u8>> {
     let mut encoder = BzEncoder::new(Vec::new(), Compression::default());
